@@ -590,18 +590,7 @@ func boolPadding(u *Universe) string {
 	if gb == nil {
 		return "parquet.GetBools not found"
 	}
-	var ucall *ssa.Call
-	for _, b := range gb.Blocks {
-		for _, ins := range b.Instrs {
-			if call, ok := ins.(*ssa.Call); ok {
-				if sc := call.Call.StaticCallee(); sc != nil && u.InUniverse(sc) && sc.Signature.Results().Len() == 1 && len(sc.Params) == 1 {
-					if at, ok := sc.Signature.Results().At(0).Type().Underlying().(*types.Array); ok && at.Len() == 8 {
-						ucall = call
-					}
-				}
-			}
-		}
-	}
+	ucall := boolUnpackCall(u, gb)
 	if ucall == nil {
 		return ""
 	}
@@ -674,16 +663,8 @@ func unpackBoolsOrder(u *Universe) string {
 		return "parquet.GetBools not found"
 	}
 	var unpack *ssa.Function
-	for _, b := range gb.Blocks {
-		for _, ins := range b.Instrs {
-			if call, ok := ins.(*ssa.Call); ok {
-				if sc := call.Call.StaticCallee(); sc != nil && u.InUniverse(sc) && sc.Signature.Results().Len() == 1 && len(sc.Params) == 1 {
-					if at, ok := sc.Signature.Results().At(0).Type().Underlying().(*types.Array); ok && at.Len() == 8 {
-						unpack = sc
-					}
-				}
-			}
-		}
+	if uc := boolUnpackCall(u, gb); uc != nil {
+		unpack = uc.Call.StaticCallee()
 	}
 	if unpack == nil {
 		return "GetBools does not unpack bytes through a func(byte) [8]bool"
@@ -1219,4 +1200,41 @@ func laMemRead(c *Ctx, rule string) {
 	}
 	r.count(rule+"/column-readers", n)
 	r.floor(rule+"/column-readers", 16, "16 column types in alltypes")
+}
+
+// boolUnpackCall: the call of the byte unpacker (a func(byte) [8]bool of the universe) in GetBools or in a helper of the
+// runtime it delegates a page to.
+func boolUnpackCall(u *Universe, gb *ssa.Function) *ssa.Call {
+	var found *ssa.Call
+	var visit func(f *ssa.Function, depth int)
+	seen := map[*ssa.Function]bool{}
+	visit = func(f *ssa.Function, depth int) {
+		if seen[f] || depth > 2 {
+			return
+		}
+		seen[f] = true
+		for _, b := range f.Blocks {
+			for _, ins := range b.Instrs {
+				call, ok := ins.(*ssa.Call)
+				if !ok {
+					continue
+				}
+				sc := call.Call.StaticCallee()
+				if sc == nil || !u.InUniverse(sc) {
+					continue
+				}
+				if sc.Signature.Results().Len() == 1 && len(sc.Params) == 1 {
+					if at, ok := sc.Signature.Results().At(0).Type().Underlying().(*types.Array); ok && at.Len() == 8 {
+						found = call
+						continue
+					}
+				}
+				if u.pkgPathOf(sc) == rtPath && sc.Blocks != nil {
+					visit(sc, depth+1)
+				}
+			}
+		}
+	}
+	visit(gb, 0)
+	return found
 }
